@@ -7,11 +7,14 @@ Ports, AS WRITTEN (not as they should be):
   * `Type._initialize` assertion -> `validBits`, `Ty.mk?`
   * `Type.max`  (141-177)        -> `Ty.max`
   * `Type.complex_part` (180-183)-> `Ty.complexPart`
-  * `Expr.get_type` (1150-1238)  -> `nodeTy`   (one branch per Python `elif`; an exception = `none`)
+  * `Expr.get_type` (1150-1238)  -> `nodeTy`   (one `match` arm per Python `elif`; an exception = `none`)
   * `Expr.is_complex` (1070-1147)-> `nodeIsComplex`
-  * `PrinterBase.get_type` + `type_to_target`  -> `canonIn` (the table itself is regenerated, see Generated/C08Tables)
+  * `PrinterBase.get_type` + `type_to_target`  -> the `canon` field of `Tables` (regenerated, see Generated/C08Tables)
   * graph level: `staticAll` / `staticTy` (get_type at every node of a DAG), `dynAll` / `dynTy` (the dtype NumPy produces
     at every node, defined from an ABSTRACT per-node result-dtype oracle `NP`).
+
+All definitions are written with `match` on enumerations (not list membership) so that the kernel can evaluate
+them on the thousands of regenerated table rows in seconds.
 -/
 namespace FAVerif.Typing
 
@@ -19,6 +22,10 @@ namespace FAVerif.Typing
 
 inductive TKind | boolean | integer | float | complex
   deriving DecidableEq, Repr, Inhabited
+
+def TKind.beq : TKind → TKind → Bool
+  | .boolean, .boolean | .integer, .integer | .float, .float | .complex, .complex => true
+  | _, _ => false
 
 structure Ty where
   kind : TKind
@@ -45,6 +52,19 @@ def c256 : Ty := ⟨.complex, some 256⟩
 def alien : Ty := ⟨.boolean, some 0⟩
 end Ty
 
+def obeq : Option Nat → Option Nat → Bool
+  | none, none => true
+  | some x, some y => x == y
+  | _, _ => false
+
+/-- fast structural equality test (`Ty.beq_iff` in Lemmas) -/
+def Ty.beq (a b : Ty) : Bool := a.kind.beq b.kind && obeq a.bits b.bits
+
+def tysBeq : List Ty → List Ty → Bool
+  | [], [] => true
+  | x :: xs, y :: ys => x.beq y && tysBeq xs ys
+  | _, _ => false
+
 /-- all entries defined -/
 def allSome {α : Type} : List (Option α) → Option (List α)
   | [] => some []
@@ -67,25 +87,29 @@ def maxBits : List Nat → Option Nat
   | [] => none
   | x :: xs => some (xs.foldl max x)
 
+/-- `[t.bits for t in [self] if t.kind == kind and t.bits is not None]` -/
+def Ty.cand (kind : TKind) (t : Ty) : List Nat :=
+  if t.kind.beq kind then (match t.bits with | some n => [n] | none => []) else []
+
 /-- `Type.max` (typesystem.py 141-177), scalar kinds.  The `if … in {self.kind, other.kind}` cascade picks the
 larger kind; the width is the maximum over the operands OF THAT KIND whose width is not None. -/
 def Ty.max (a b : Ty) : Ty :=
-  if a = b then a else
+  if a.beq b then a else
   let kind : TKind :=
-    if a.kind = .complex ∨ b.kind = .complex then .complex
-    else if a.kind = .float ∨ b.kind = .float then .float
-    else if a.kind = .integer ∨ b.kind = .integer then .integer
+    if a.kind.beq .complex || b.kind.beq .complex then .complex
+    else if a.kind.beq .float || b.kind.beq .float then .float
+    else if a.kind.beq .integer || b.kind.beq .integer then .integer
     else .boolean
-  ⟨kind, maxBits (([a, b].filter (fun t => t.kind = kind)).filterMap (·.bits))⟩
+  ⟨kind, maxBits (a.cand kind ++ b.cand kind)⟩
 
 /-- `Type.complex_part`: `assert self.kind == "complex"`; `bits // 2`. -/
 def Ty.complexPart (t : Ty) : Option Ty :=
-  if t.kind = .complex then Ty.mk? .float (t.bits.map (· / 2)) else none
+  if t.kind.beq .complex then Ty.mk? .float (t.bits.map (· / 2)) else none
 
 /-- The `complex` branch of `get_type`: `Type(context, "complex", t.bits * 2)`. -/
 def Ty.complexify (t : Ty) : Option Ty := Ty.mk? .complex (t.bits.map (· * 2))
 
-def Ty.isComplex (t : Ty) : Bool := t.kind == .complex
+def Ty.isComplex (t : Ty) : Bool := t.kind.beq .complex
 
 /-! ## Expression kinds (expr.py `known_expression_kinds`, operations only) -/
 
@@ -104,27 +128,15 @@ inductive Kind
   | is_finite | is_inf | is_posinf | is_neginf | is_nan | is_negzero
   deriving DecidableEq, Repr, Inhabited
 
-open Kind in
-/-- get_type: `kind in {"lt", …, "is_finite"}` -> boolean. -/
-def boolKinds : List Kind := [lt, le, gt, ge, eq, ne, logical_and, logical_or, logical_xor, is_finite]
-
-open Kind in
-/-- get_type: kinds typed as `self.operands[0].get_type()`. -/
-def firstKinds : List Kind :=
-  [positive, negative, sqrt, square, asin, acos, atan, asinh, acosh, atanh, sinh, cosh, tanh, sin, cos, tan,
-   log, log1p, log2, log10, exp, exp2, expm1, ceil, floor, logical_not, sign, copysign, conjugate, asin_acos_kernel]
-
-open Kind in
-/-- get_type: kinds typed as `operands[0].get_type().max(operands[1].get_type())`. -/
-def maxKinds : List Kind := [add, subtract, divide, multiply, pow, maximum, minimum, hypot, remainder, atan2]
+def Kind.beq (a b : Kind) : Bool := a.ctorIdx == b.ctorIdx
 
 /-- `item` branch of get_type on the element types of the container: one kind and one width -> that type;
 one kind, several widths -> the unsized type of that kind; several kinds -> `assert 0`. -/
 def itemTy : List Ty → Option Ty
   | [] => none
   | t :: ts =>
-    if ts.all (fun u => u.kind == t.kind) then
-      (if ts.all (fun u => u.bits == t.bits) then some t else some ⟨t.kind, none⟩)
+    if ts.all (fun u => u.kind.beq t.kind) then
+      (if ts.all (fun u => obeq u.bits t.bits) then some t else some ⟨t.kind, none⟩)
     else none
 
 /-- `Expr.get_type` for an operation node, as a function of the kind and of the operands' types
@@ -133,49 +145,40 @@ def itemTy : List Ty → Option Ty
 An operand's type is demanded exactly where the Python code calls `operand.get_type()`. -/
 def nodeTy (k : Kind) (ts : List (Option Ty)) : Option Ty :=
   let arg (n : Nat) : Option Ty := (ts.getD n none)
-  if k ∈ boolKinds then some Ty.b
-  else if k ∈ firstKinds then arg 0
-  else if k ∈ maxKinds then do let a ← arg 0; let b ← arg 1; pure (a.max b)
-  else if k = .absolute ∨ k = .real ∨ k = .imag then do
-    let t ← arg 0
-    if t.isComplex then t.complexPart else pure t
-  else if k = .select then do let a ← arg 1; let b ← arg 2; pure (a.max b)
-  else if k = .complex then do let a ← arg 0; let b ← arg 1; (a.max b).complexify
-  else if k = .upcast then do let t ← arg 0; Ty.mk? t.kind (t.bits.map (· * 2))
-  else if k = .downcast then do let t ← arg 0; Ty.mk? t.kind (t.bits.map (· / 2))
-  else if k = .item then (allSome ts).bind itemTy
-  else none
-
-open Kind in
-def icFalseKinds : List Kind :=
-  [lt, le, gt, ge, eq, ne, real, imag, absolute, logical_and, logical_or, logical_xor, logical_not,
-   bitwise_invert, bitwise_and, bitwise_or, bitwise_xor, bitwise_left_shift, bitwise_right_shift,
-   ceil, floor, hypot, maximum, minimum, floor_divide, remainder]
-
-open Kind in
-def icFirstKinds : List Kind :=
-  [positive, negative, sqrt, square, asin, acos, atan, asinh, acosh, atanh, sinh, cosh, tanh, sin, cos, tan,
-   log, log1p, log2, log10, exp, expm1, exp2]
+  match k with
+  -- kind in {"lt", "le", "gt", "ge", "eq", "ne", "logical_and", "logical_or", "logical_xor", "is_finite"}
+  | .lt | .le | .gt | .ge | .eq | .ne | .logical_and | .logical_or | .logical_xor | .is_finite => some Ty.b
+  -- kinds typed as self.operands[0].get_type()
+  | .positive | .negative | .sqrt | .square | .asin | .acos | .atan | .asinh | .acosh | .atanh | .sinh | .cosh | .tanh
+  | .sin | .cos | .tan | .log | .log1p | .log2 | .log10 | .exp | .exp2 | .expm1 | .ceil | .floor | .logical_not | .sign
+  | .copysign | .conjugate | .asin_acos_kernel => arg 0
+  -- operands[0].get_type().max(operands[1].get_type())
+  | .add | .subtract | .divide | .multiply | .pow | .maximum | .minimum | .hypot | .remainder | .atan2 =>
+    (arg 0).bind fun a => (arg 1).bind fun b => some (a.max b)
+  -- t.complex_part if t.is_complex else t
+  | .absolute | .real | .imag => (arg 0).bind fun t => if t.isComplex then t.complexPart else some t
+  | .select => (arg 1).bind fun a => (arg 2).bind fun b => some (a.max b)
+  | .complex => (arg 0).bind fun a => (arg 1).bind fun b => (a.max b).complexify
+  | .upcast => (arg 0).bind fun t => Ty.mk? t.kind (t.bits.map (· * 2))
+  | .downcast => (arg 0).bind fun t => Ty.mk? t.kind (t.bits.map (· / 2))
+  | .item => (allSome ts).bind itemTy
+  | _ => none
 
 /-- `Expr.is_complex` for an operation node as a function of the kind and the operands' `is_complex`
 (`none` = NotImplementedError).  Note `select` looks at operand 1 only. -/
 def nodeIsComplex (k : Kind) (cs : List (Option Bool)) : Option Bool :=
   let arg (n : Nat) : Option Bool := cs.getD n none
-  if k = .select then arg 1
-  else if k ∈ icFalseKinds then some false
-  else if k = .complex ∨ k = .conjugate then some true
-  else if k = .add ∨ k = .subtract ∨ k = .divide ∨ k = .multiply ∨ k = .pow then do
-    let a ← arg 0
-    if a then pure true else arg 1
-  else if k ∈ icFirstKinds then arg 0
-  else if k = .item then (allSome cs).map (fun es => es.all id)
-  else none
-
-/-! ## Printed dtype of a static type: `PrinterBase.get_type` = `type_to_target[str(typ)]` -/
-
-/-- Lookup in a (regenerated) `type_to_target` table: static type -> the NumPy dtype it is printed as
-(`none` = KeyError, the type cannot be printed). -/
-def canonIn (tbl : List (Ty × Ty)) (t : Ty) : Option Ty := (tbl.find? (fun p => p.1 == t)).map (·.2)
+  match k with
+  | .select => arg 1
+  | .lt | .le | .gt | .ge | .eq | .ne | .real | .imag | .absolute | .logical_and | .logical_or | .logical_xor | .logical_not
+  | .bitwise_invert | .bitwise_and | .bitwise_or | .bitwise_xor | .bitwise_left_shift | .bitwise_right_shift
+  | .ceil | .floor | .hypot | .maximum | .minimum | .floor_divide | .remainder => some false
+  | .complex | .conjugate => some true
+  | .add | .subtract | .divide | .multiply | .pow => (arg 0).bind fun a => if a then some true else arg 1
+  | .positive | .negative | .sqrt | .square | .asin | .acos | .atan | .asinh | .acosh | .atanh | .sinh | .cosh | .tanh
+  | .sin | .cos | .tan | .log | .log1p | .log2 | .log10 | .exp | .expm1 | .exp2 => arg 0
+  | .item => (allSome cs).map (fun es => es.all id)
+  | _ => none
 
 /-! ## Graphs: flat DAGs, node `i` refers to earlier nodes only -/
 
@@ -183,6 +186,8 @@ def canonIn (tbl : List (Ty × Ty)) (t : Ty) : Option Ty := (tbl.find? (fun p =>
 inductive VC
   | pybool | pyint | pyfloat | pycomplex | npint | npfloat16 | npfloat32 | npfloat64 | npcomplex | named
   deriving DecidableEq, Repr, Inhabited
+
+def VC.beq (a b : VC) : Bool := a.ctorIdx == b.ctorIdx
 
 inductive Node
   /-- symbol of a declared type (function argument, or the hidden `_float_value`-style like-symbols) -/
@@ -283,33 +288,61 @@ structure YRow where
   obs : List Ty
   deriving DecidableEq, Repr
 
-/-- The observed tables, grouped by kind for fast lookup. -/
+/-- The regenerated tables.  Rows of a kind are listed with their operand tuples in lexicographic order of the
+position (`ucode` / `dcode`) of each operand type in the universe, so a row is found by index. -/
 structure Tables where
-  canon : List (Ty × Ty)
-  /-- the static rows, one chunk per kind -/
-  chunks : List (List SRow)
-  np : List (Kind × List NRow)
+  /-- `type_to_target`: static type ↦ dtype it is printed as (`none` = KeyError) -/
+  canon : Ty → Option Ty
+  /-- position of a static type in the row universe, and the size of the universe -/
+  ucode : Ty → Option Nat
+  nU : Nat
+  /-- position of a dtype in the dtype universe -/
+  dcode : Ty → Option Nat
+  nD : Nat
+  kinds : List Kind
+  /-- static rows of a kind -/
+  chunkOf : Kind → List SRow
+  /-- observed rows of a kind (`[]` for kinds the numpy target does not print) -/
+  npOf : Kind → List NRow
   consts : List CRow
   symbols : List YRow
 
-def Tables.static (T : Tables) : List SRow := T.chunks.flatten
+/-- all static rows -/
+def Tables.static (T : Tables) : List SRow := T.kinds.flatMap T.chunkOf
 
-def Tables.canonTy (T : Tables) (t : Ty) : Option Ty := canonIn T.canon t
+/-- a Bool check on every static row (kind by kind) -/
+def Tables.allRows (T : Tables) (f : SRow → Bool) : Bool := T.kinds.all (fun k => (T.chunkOf k).all f)
+
+def Tables.canonTy (T : Tables) (t : Ty) : Option Ty := T.canon t
+
+/-- position of an operand tuple: `((idx * n + c₀) * n + c₁) …` -/
+def lexIndex (n : Nat) (start : Nat) (cs : List Nat) : Nat := cs.foldl (fun acc c => acc * n + c) start
+
+/-- the static row with the given key, by position (the key is re-checked) -/
+def Tables.rowAt (T : Tables) (k : Kind) (idx : Nat) (ts : List Ty) : Option SRow :=
+  (allSome (ts.map T.ucode)).bind fun cs =>
+    match (T.chunkOf k)[lexIndex T.nU idx cs]? with
+    | some r => if r.kind.beq k && r.idx == idx && tysBeq r.args ts then some r else none
+    | none => none
 
 def Tables.npLookup (T : Tables) (k : Kind) (idx : Nat) (ds : List Ty) : Option (List Ty) :=
-  match T.np.find? (fun p => p.1 == k) with
-  | none => none
-  | some p => (p.2.find? (fun r => r.idx == idx && r.args == ds)).map (·.obs)
+  (allSome (ds.map T.dcode)).bind fun cs =>
+    match (T.npOf k)[lexIndex T.nD idx cs]? with
+    | some r => if r.kind.beq k && r.idx == idx && tysBeq r.args ds then some r.obs else none
+    | none => none
 
 /-- The concrete oracle read off the observed tables (`[]` for combinations that were not observed). -/
 def Tables.toNP (T : Tables) : NP where
-  symbol t := ((T.symbols.find? (fun r => r.ty == t)).map (·.obs)).getD []
-  const vc t := ((T.consts.find? (fun r => r.vc == vc && r.like == t)).map (·.obs)).getD []
+  symbol t := ((T.symbols.find? (fun r => r.ty.beq t)).map (·.obs)).getD []
+  const vc t := ((T.consts.find? (fun r => r.vc.beq vc && r.like.beq t)).map (·.obs)).getD []
   op k idx ds := (T.npLookup k idx ds).getD []
 
 /-- Status of one static row against the observed table. -/
 inductive Status | untyped | unprintable | unobserved | error | agree | disagree
   deriving DecidableEq, Repr
+
+def Status.isDisagree : Status → Bool | .disagree => true | _ => false
+def Status.isAgree : Status → Bool | .agree => true | _ => false
 
 /-- untyped: get_type raises.  unprintable: the static type has no entry in `type_to_target` (printing the
 annotation / the assertion raises KeyError).  unobserved: the numpy target has no template / no observation for the row.
@@ -325,11 +358,8 @@ def Tables.status (T : Tables) (r : SRow) : Status :=
       match (allSome (r.args.map T.canonTy)).bind (T.npLookup r.kind r.idx) with
       | none => .unobserved
       | some [] => .error
-      | some [d] => if ct = d then .agree else .disagree
+      | some [d] => if ct.beq d then .agree else .disagree
       | some _ => .disagree
-
-/-- a Bool check on every static row (chunk by chunk) -/
-def Tables.allRows (T : Tables) (f : SRow → Bool) : Bool := T.chunks.all (fun c => c.all f)
 
 /-! ## Reference (fixed) description of the known deviations — depends on kind and operand types ONLY -/
 
@@ -374,98 +404,107 @@ def Cause.signature : Cause → String
 
 /-- The larger kind of a list of types (boolean < integer < float < complex). -/
 def topKind (ts : List Ty) : TKind :=
-  if ts.any (·.kind == .complex) then .complex
-  else if ts.any (·.kind == .float) then .float
-  else if ts.any (·.kind == .integer) then .integer
+  if ts.any (·.kind.beq .complex) then .complex
+  else if ts.any (·.kind.beq .float) then .float
+  else if ts.any (·.kind.beq .integer) then .integer
   else .boolean
 
 /-- First operand whose NumPy width need exceeds the width `w` the static type provides. -/
 def culprit (k : TKind) (w : Nat) (ts : List Ty) : Option Cause :=
-  match ts.find? (fun t => need k t > w) with
+  match ts.find? (fun t => decide (need k t > w)) with
   | none => none
   | some t =>
     if t.bits.isNone then some .unsizedOperandIgnored
-    else if t.kind == .integer then some .integerWidthIgnored
+    else if t.kind.beq .integer then some .integerWidthIgnored
     else some .floatWiderThanComplexPart
 
-open Kind in
-/-- Kinds whose template promotes its operands like NumPy arithmetic (operands to consider = all). -/
-def promoKinds : List Kind := [add, subtract, multiply, divide, pow, remainder, atan2, hypot]
+/-- Kinds whose NumPy template returns a float for integer operands. -/
+def Kind.isFloatFn : Kind → Bool
+  | .sqrt | .asin | .acos | .atan | .asinh | .acosh | .atanh | .sinh | .cosh | .tanh | .sin | .cos | .tan
+  | .log | .log1p | .log2 | .log10 | .exp | .exp2 | .expm1 | .divide | .atan2 | .hypot | .asin_acos_kernel => true
+  | _ => false
 
-open Kind in
-/-- Kinds whose NumPy template returns a float for integer/boolean operands (so they are only well-typed on
-float/complex operands). -/
-def floatFnKinds : List Kind :=
-  [sqrt, asin, acos, atan, asinh, acosh, atanh, sinh, cosh, tanh, sin, cos, tan, log, log1p, log2, log10,
-   exp, exp2, expm1, divide, atan2, hypot, asin_acos_kernel]
-
-open Kind in
 /-- Operand discipline ("well-typed use"): rows outside it are misuse of the operation (numbers into logical
 operations, a non-boolean `select` condition, all-boolean operands of arithmetic, non-float parts of `complex`,
 a non-float magnitude of `copysign`); the property makes no claim about them. -/
 def wtRow (k : Kind) (ts : List Ty) : Bool :=
-  if k ∈ [logical_and, logical_or, logical_xor, logical_not] then ts.all (·.kind == .boolean)
-  else if k = select then (ts.head?.map (·.kind == .boolean)).getD false
-  else if k ∈ [lt, le, gt, ge, eq, ne, is_finite, upcast, downcast, item] then true
-  else if k = Kind.complex then ts.all (·.kind == .float)
-  else if k = copysign then (ts.head?.map (·.kind == .float)).getD false && !ts.any (·.kind == .complex)
-  else topKind ts != .boolean
+  match k with
+  | .logical_and | .logical_or | .logical_xor | .logical_not => ts.all (·.kind.beq .boolean)
+  | .select => (ts.head?.map (·.kind.beq .boolean)).getD false
+  | .lt | .le | .gt | .ge | .eq | .ne | .is_finite | .upcast | .downcast | .item => true
+  | .complex => ts.all (·.kind.beq .float)
+  | .copysign => (ts.head?.map (·.kind.beq .float)).getD false && !ts.any (·.kind.beq .complex)
+  | _ => !(topKind ts).beq .boolean
 
-open Kind in
-/-- Known deviation of the row `(k, ts)`, as a function of the kind and operand types only.
+/-- Known deviation of the row `(k, idx, ts)`, as a function of the kind and operand types only.
 `sw` = printed width of the hand-ported static type. -/
 def cause (k : Kind) (idx : Nat) (ts : List Ty) : Option Cause :=
-  let st := nodeTy k (ts.map some)
-  let sw := (st.map Ty.width).getD 0
-  if k ∈ floatFnKinds ∧ topKind ts = .integer then some .floatFnOfInteger
-  else if k = maximum ∨ k = minimum then
-    match ts with
-    | [a, b] => if (a.kind, a.width) ≠ (b.kind, b.width) then some .builtinMaxMin else none
-    | _ => none
-  else if k ∈ promoKinds then culprit (topKind ts) sw ts
-  else if k = select then culprit (topKind (ts.drop 1)) sw (ts.drop 1)
-  else if k = Kind.complex then culprit .complex sw ts
-  else if k = copysign then
-    match culprit .float sw ts with
-    | none => none
-    | some _ => some .copysignFirstOperand
-  else if k = upcast ∨ k = downcast then
-    match ts with
-    | [t] => if t.bits.isNone ∧ t.kind ≠ .boolean then some .castOfUnsized else none
-    | _ => none
-  else if k = item then
-    match ts[idx]? with
-    | some e =>
-      if ts.any (fun u => u.bits ≠ e.bits) ∧ e.width ≠ (Ty.mk e.kind none).width then some .itemHeterogeneous else none
-    | none => none
-  else none
+  let sw := ((nodeTy k (ts.map some)).map Ty.width).getD 0
+  if k.isFloatFn && (topKind ts).beq .integer then some .floatFnOfInteger
+  else match k with
+  | .maximum | .minimum =>
+    (match ts with
+     | [a, b] => if a.kind.beq b.kind && a.width == b.width then none else some .builtinMaxMin
+     | _ => none)
+  | .add | .subtract | .multiply | .divide | .pow | .remainder | .atan2 | .hypot => culprit (topKind ts) sw ts
+  | .select => culprit (topKind (ts.drop 1)) sw (ts.drop 1)
+  | .complex => culprit .complex sw ts
+  | .copysign => (match culprit .float sw ts with | none => none | some _ => some .copysignFirstOperand)
+  | .upcast | .downcast =>
+    (match ts with
+     | [t] => if t.bits.isNone && !t.kind.beq .boolean then some .castOfUnsized else none
+     | _ => none)
+  | .item =>
+    (match ts[idx]? with
+     | some e =>
+       if ts.any (fun u => !obeq u.bits e.bits) && !(e.width == (Ty.mk e.kind none).width) then some .itemHeterogeneous
+       else none
+     | none => none)
+  | _ => none
 
 /-! ## Row checks (Bool), evaluated by the kernel on the regenerated tables and by the driver -/
 
+def otyBeq : Option Ty → Option Ty → Bool
+  | none, none => true
+  | some a, some b => a.beq b
+  | _, _ => false
+
+def oboolBeq : Option Bool → Option Bool → Bool
+  | none, none => true
+  | some a, some b => a == b
+  | _, _ => false
+
 /-- the hand port reproduces the real get_type / is_complex on the row -/
 def modelRow (r : SRow) : Bool :=
-  (nodeTy r.kind (r.args.map some) == r.ty) &&
-  (nodeIsComplex r.kind (r.args.map (fun t => some t.isComplex)) == r.isComplex)
+  otyBeq (nodeTy r.kind (r.args.map some)) r.ty &&
+  oboolBeq (nodeIsComplex r.kind (r.args.map (fun t => some t.isComplex))) r.isComplex
 
-/-- a well-typed row without a known cause does not disagree -/
-def Tables.partialRow (T : Tables) (r : SRow) : Bool :=
-  !(wtRow r.kind r.args) || (cause r.kind r.idx r.args).isSome || T.status r != .disagree
+/-- THE per-row agreement check: on a well-typed row, `disagree` ⇒ a known cause, `agree` ⇒ no known cause
+(so: no cause ⇒ no disagreement, and among rows that produce a value: disagree ⇔ known cause). -/
+def Tables.rowCheck (T : Tables) (r : SRow) : Bool :=
+  if wtRow r.kind r.args then
+    (match T.status r with
+     | .disagree => (cause r.kind r.idx r.args).isSome
+     | .agree => (cause r.kind r.idx r.args).isNone
+     | _ => true)
+  else true
 
-/-- among well-typed rows that produce a value: disagree ⇔ known cause -/
-def Tables.exactRow (T : Tables) (r : SRow) : Bool :=
-  !(wtRow r.kind r.args) || !(T.status r == .agree || T.status r == .disagree) ||
-  ((T.status r == .disagree) == (cause r.kind r.idx r.args).isSome)
-
-/-- rows over one uniform family of types are clean -/
+/-- rows over one uniform family of types: the only possible deviations are Python max/min and `item` applied to
+operands of DIFFERENT types of the family -/
 def Tables.familyRow (T : Tables) (fam : List Ty) (r : SRow) : Bool :=
-  !(r.args.all (fam.contains ·)) || !(wtRow r.kind r.args) ||
-  ((cause r.kind r.idx r.args).isNone && T.status r != .disagree)
+  !(r.args.all (fun t => fam.any (·.beq t))) || !(wtRow r.kind r.args) ||
+  (match cause r.kind r.idx r.args with
+   | none => !(T.status r).isDisagree
+   | some .builtinMaxMin | some .itemHeterogeneous => true
+   | some _ => false)
 
 /-- rows on which `is_complex` and `get_type` are known to contradict each other -/
 def icExcluded (r : SRow) : Bool :=
-  (([.ceil, .floor, .hypot, .maximum, .minimum, .remainder, .logical_not] : List Kind).contains r.kind && r.args.any Ty.isComplex) ||
-  (r.kind == .conjugate && !r.args.any Ty.isComplex) ||
-  (r.kind == .select && (match r.args with | [_, a, b] => !a.isComplex && b.isComplex | _ => false))
+  (match r.kind with
+   | .ceil | .floor | .hypot | .maximum | .minimum | .remainder | .logical_not => r.args.any Ty.isComplex
+   | .conjugate => !r.args.any Ty.isComplex
+   | .select => (match r.args with | [_, a, b] => !a.isComplex && b.isComplex | _ => false)
+   | _ => false)
 
 def icRow (r : SRow) : Bool :=
   match r.ty, r.isComplex with
